@@ -428,14 +428,17 @@ impl<'a, H: Header> TagIter<'a, H> {
 //@end
 
 // `impl Iterator for TagIter` (R4: hosted as an inherent method, Self::Item written out)
-//@extract multiboot2-common/src/iter.rs :: impl<'a, H: Header + 'a> Iterator for TagIter<'a, H> :: fn next
-//@  ret r
-//@  rules R2
-//@  sigrewrite /Option<Self::Item>/ => /Option<&'a DynSizedStructure<H>>/
-//@  rewrite /&self\.buffer\[\s*(\w+)\s*\.\.\s*(\w+)\s*\]/ => /vslice(self.buffer, \1, \2)/
-//@  rewrite /DynSizedStructure::ref_from_slice\((\w+)\)\s*\.unwrap\(\)/ => /res_unwrap(DynSizedStructure::ref_from_slice(\1))/
-//@  prologue proof { old(self).hdr_at_off(old(self).next_tag_offset as int).lemma_hdr_layout(); if old(self).next_tag_offset <= old(self).buffer@.len() { lemma_round8_props(old(self).next_tag_offset + old(self).hdr_at_off(old(self).next_tag_offset as int).declared_total()); } }
-//@  spec:
+//@extractall multiboot2-common/src/iter.rs :: impl<'a, H: Header + 'a> Iterator for TagIter<'a, H>
+//@  type Item: skip
+//@  fn *: rules R2
+//@  fn *: sigrewrite /Self::Item/ => /&'a DynSizedStructure<H>/ x*
+//@  fn next: ret r
+//@  fn next: rules R2
+//@  fn next: sigrewrite /Option<Self::Item>/ => /Option<&'a DynSizedStructure<H>>/
+//@  fn next: rewrite /&self\.buffer\[\s*(\w+)\s*\.\.\s*(\w+)\s*\]/ => /vslice(self.buffer, \1, \2)/
+//@  fn next: rewrite /DynSizedStructure::ref_from_slice\((\w+)\)\s*\.unwrap\(\)/ => /res_unwrap(DynSizedStructure::ref_from_slice(\1))/
+//@  fn next: prologue proof { old(self).hdr_at_off(old(self).next_tag_offset as int).lemma_hdr_layout(); if old(self).next_tag_offset <= old(self).buffer@.len() { lemma_round8_props(old(self).next_tag_offset + old(self).hdr_at_off(old(self).next_tag_offset as int).declared_total()); } }
+//@  fn next: spec:
 //@    requires old(self).wf_weak(), panics_allowed(), size_of::<H>() == 8,
 //@    ensures
 //@        old(self).wf(), final(self).wf(), final(self).buffer == old(self).buffer,
